@@ -189,3 +189,117 @@ def stl_soup(rng, data: bytes) -> bytes:
 
 def gen(rng, fmt):
   return {"scc": scc_soup, "srt": srt_soup, "vtt": vtt_soup}[fmt](rng).encode("utf-8", "replace")
+
+
+# ---- TTML: structurally hostile documents (well-formed XML, invalid or unusual TTML) --------------------------------------------
+
+def ttml_soup(rng):
+  """A schema-generated document with 1-3 structural mutations: reference loops, misplaced elements, children below
+  elements that have none, duplicated ids, deep nesting. Returns (xml bytes, list of mutation names)."""
+  import copy
+  from vt.gen import ttml as gt
+  _, root, pretty, _ = gt.generate(rng)
+  N = gt.N
+  nodes = list(root.walk())
+  by_tag = {}
+  for n in nodes:
+    by_tag.setdefault(n.tag, []).append(n)
+  done = []
+  for _ in range(rng.choice([1, 1, 2, 3])):
+    op = rng.choice(["style-loop", "style-self", "misplace", "set-kids", "br-kids", "dup-id", "deep", "deep", "region-in-content", "initial-anywhere",
+                     "nested-tt", "empty-containers", "text-in-block"])
+    content = [n for n in nodes if n.tag in ("div", "p", "span", "body")]
+    if "deep" in done and op in ("misplace", "nested-tt", "deep"):
+      continue      # (copying a very deep subtree would exhaust the generator's own stack)
+    if op in ("style-loop", "style-self"):
+      styling = (by_tag.get("styling") or [None])[0]
+      if styling is None:
+        head = (by_tag.get("head") or [None])[0]
+        if head is None:
+          continue
+        styling = N("styling")
+        head.kids.insert(0, styling)
+        by_tag.setdefault("styling", []).append(styling)
+      a, b = "zz1", "zz2"
+      if op == "style-self":
+        styling.kids.append(N("style", [["xml:id", a], ["style", a + " " + a], ["tts:color", "red"]]))
+      else:
+        k = rng.choice([2, 3])
+        ids = [f"zz{i}" for i in range(k)]
+        for i, sid in enumerate(ids):
+          styling.kids.append(N("style", [["xml:id", sid], ["style", ids[(i + 1) % k]], ["tts:fontStyle", "italic"]]))
+        a = ids[0]
+      for n in rng.sample(content, min(len(content), 2)) + (by_tag.get("region") or [])[:1]:
+        n.set("style", ((n.get("style") or "") + " " + a).strip())
+    elif op == "misplace" and len(nodes) > 3:
+      src = rng.choice(nodes[1:])
+      dst = rng.choice(nodes)
+      if dst is not src and dst not in list(src.walk()):
+        dst.kids.insert(rng.randrange(len(dst.kids) + 1), copy.deepcopy(src))
+    elif op in ("set-kids", "br-kids"):
+      host = rng.choice(content) if content else None
+      if host is not None:
+        kid = N("set" if op == "set-kids" else "br", [["tts:color", "red"]] if op == "set-kids" else [],
+                [rng.choice(["text", N("span", [], ["x"]), N("p", [], ["y"]), N("set", [["tts:color", "blue"]]), N("br")])])
+        host.kids.insert(rng.randrange(len(host.kids) + 1), kid)
+    elif op == "dup-id":
+      withid = [n for n in nodes if n.get("xml:id")]
+      if len(withid) >= 2:
+        a, b = rng.sample(withid, 2)
+        b.set("xml:id", a.get("xml:id"))
+    elif op == "deep":
+      host = rng.choice([n for n in nodes if n.tag in ("p", "span")] or content or [root])
+      depth = rng.choice([30, 120, 250, 330, 400, 700])
+      tag = rng.choice(["span", "span", "div"]) if host.tag != "p" or True else "span"
+      top = cur = N(tag)
+      for _ in range(depth - 1):
+        nxt = N(tag)
+        cur.kids.append(nxt)
+        cur = nxt
+      cur.kids.append("deep")
+      host.kids.append(top)
+    elif op == "region-in-content" and content:
+      rng.choice(content).kids.insert(0, N("region", [["xml:id", "rX"], ["tts:extent", "10% 10%"]]))
+    elif op == "initial-anywhere":
+      rng.choice(nodes).kids.insert(0, N("initial", [["tts:color", rng.choice(["red", "", "nope"])]]))
+    elif op == "nested-tt":
+      rng.choice(nodes).kids.append(copy.deepcopy(root) if len(nodes) < 40 else N("tt"))
+    elif op == "empty-containers":
+      for n in nodes:
+        if n.tag in ("head", "styling", "layout", "body", "div") and rng.random() < 0.5:
+          n.kids = []
+    elif op == "text-in-block":
+      blk = [n for n in nodes if n.tag in ("tt", "head", "styling", "layout", "body", "div", "region")]
+      if blk:
+        rng.choice(blk).kids.insert(0, "stray text")
+    done.append(op)
+  return gt.to_xml(root, pretty).encode("utf-8"), done
+
+
+def deep_text(rng, fmt):
+  """SRT / WebVTT cue whose payload nests one tag to a depth of up to 1300."""
+  depth = rng.choice([100, 300, 600, 950, 1100, 1300])
+  tag = rng.choice(["b", "i", "u"] + (["c.red", "v Bob", "lang en"] if fmt == "vtt" else ["font color=\"red\""]))
+  body = ("<" + tag + ">") * depth + "deep" + ("</" + tag.split(" ")[0].split(".")[0] + ">") * rng.choice([depth, depth, 0, depth // 2])
+  if fmt == "vtt":
+    return ("WEBVTT\n\n00:00:00.000 --> 00:00:01.000\n" + body + "\n\n00:00:02.000 --> 00:00:03.000\nx\n").encode("utf-8")
+  return ("1\n00:00:00,000 --> 00:00:01,000\n" + body + "\n\n2\n00:00:02,000 --> 00:00:03,000\nx\n").encode("utf-8")
+
+
+def nesting_depth(fmt, data: bytes) -> int:
+  """Maximum number of simultaneously open tags / elements in the input (best effort, used to attribute D-DEEP-NESTING)."""
+  import re
+  try:
+    text = data.decode("utf-8", "replace")
+  except Exception:  # pylint: disable=broad-except
+    return 0
+  depth = best = 0
+  for m in re.finditer(r"<(/?)([A-Za-z][^<>]*?)(/?)>", text):
+    if m.group(3):
+      continue
+    if m.group(1):
+      depth = max(0, depth - 1)
+    else:
+      depth += 1
+      best = max(best, depth)
+  return best
